@@ -599,6 +599,225 @@ func oversizedReplies(res *hx.Result) int {
 	return n
 }
 
+// cliPeer is a scripted raw peer: it answers the version handshake and then hands every request it reads to onReq.
+type cliPeer struct {
+	cli, srv *gconn.Conn
+	raw      p9p.Channel
+	hold     chan struct{} // while non-nil and open, the peer does not read requests
+	mu       sync.Mutex
+	reqs     []*p9p.Fcall
+	cond     *sync.Cond
+}
+
+func newCliPeer(rmsize uint32, rversion string, capacity int) *cliPeer {
+	cli, srv := gconn.Pair(capacity)
+	p := &cliPeer{cli: cli, srv: srv, raw: p9p.NewChannel(srv, 1<<20)}
+	p.cond = sync.NewCond(&p.mu)
+	bg := context.Background()
+	go func() {
+		var tv p9p.Fcall
+		if p.raw.ReadFcall(bg, &tv) != nil {
+			return
+		}
+		p.raw.WriteFcall(bg, &p9p.Fcall{Type: p9p.Rversion, Tag: p9p.NOTAG, Message: p9p.MessageRversion{MSize: rmsize, Version: rversion}})
+		for {
+			p.mu.Lock()
+			h := p.hold
+			p.mu.Unlock()
+			if h != nil {
+				<-h
+			}
+			fc := new(p9p.Fcall)
+			if p.raw.ReadFcall(bg, fc) != nil {
+				return
+			}
+			p.mu.Lock()
+			p.reqs = append(p.reqs, fc)
+			p.cond.Broadcast()
+			p.mu.Unlock()
+		}
+	}()
+	return p
+}
+
+// waitReq waits (bounded) for the request whose Tstat names fid.
+func (p *cliPeer) waitReq(fid p9p.Fid, d time.Duration) *p9p.Fcall {
+	deadline := time.Now().Add(d)
+	t := time.AfterFunc(d+time.Millisecond, func() { p.mu.Lock(); p.cond.Broadcast(); p.mu.Unlock() })
+	defer t.Stop()
+	p.mu.Lock()
+	defer p.mu.Unlock()
+	for {
+		for _, r := range p.reqs {
+			if m, ok := r.Message.(p9p.MessageTstat); ok && m.Fid == fid {
+				return r
+			}
+		}
+		if !time.Now().Before(deadline) {
+			return nil
+		}
+		p.cond.Wait()
+	}
+}
+
+func frameOfFcall(fc *p9p.Fcall) []byte {
+	b, _ := p9p.NewCodec().Marshal(fc)
+	out := make([]byte, 4, 4+len(b))
+	n := uint32(len(b) + 4)
+	out[0], out[1], out[2], out[3] = byte(n), byte(n>>8), byte(n>>16), byte(n>>24)
+	return append(out, b...)
+}
+
+// splitReplyAcrossDeadline (C05, with ConnDeadline.tla's reading of the deadline registers): call A waits for its
+// reply; call B, issued later with a short deadline, is abandoned by its caller; A's reply frame arrives in two
+// pieces with B's deadline passing in between.  A deadline belongs to the call that set it: A must still get the
+// reply the peer sent for its tag.
+func splitReplyAcrossDeadline(res *hx.Result) int {
+	n := 0
+	bg := context.Background()
+	for _, split := range []int{1, 4, 7, 12} {
+		n++
+		p := newCliPeer(p9p.DefaultMSize, "9P2000", 0)
+		sess, err := p9p.CSession(bg, p.cli)
+		if err != nil {
+			res.Violate("harness", "harness:split-session", err.Error(), nil)
+			continue
+		}
+		rep := map[string]interface{}{"engine": "client", "split_reply_at_byte": split}
+		type ret struct {
+			d   p9p.Dir
+			err error
+		}
+		aDone, bDone := make(chan ret, 1), make(chan ret, 1)
+		go func() { d, err := sess.Stat(bg, 11); aDone <- ret{d, err} }()
+		ra := p.waitReq(11, 3*time.Second)
+		ctxB, cancelB := context.WithTimeout(bg, 150*time.Millisecond)
+		go func() { d, err := sess.Stat(ctxB, 22); bDone <- ret{d, err} }()
+		rb := p.waitReq(22, 3*time.Second)
+		if ra == nil || rb == nil {
+			res.Add("steps_skipped", 1)
+			cancelB()
+			p.cli.Close()
+			continue
+		}
+		fr := frameOfFcall(&p9p.Fcall{Type: p9p.Rstat, Tag: ra.Tag, Message: p9p.MessageRstat{Stat: p9p.Dir{Name: "r11"}}})
+		p.srv.Write(fr[:split])
+		select { // B gives up at its deadline
+		case <-bDone:
+		case <-time.After(3 * time.Second):
+		}
+		time.Sleep(150 * time.Millisecond)
+		p.srv.Write(fr[split:])
+		select {
+		case a := <-aDone:
+			if a.err != nil || a.d.Name != "r11" {
+				res.Violate("C05", "reply-split-across-another-calls-deadline", fmt.Sprintf("call A's reply arrived in two pieces (%d + %d bytes) while another call's 150 ms deadline passed in between; A returned %q, %v instead of the reply sent for its tag", split, len(fr)-split, a.d.Name, a.err), rep)
+			}
+		case <-time.After(4 * time.Second):
+			res.Violate("C05", "reply-split-across-another-calls-deadline", fmt.Sprintf("call A's reply arrived in two pieces (%d + %d bytes) while another call's 150 ms deadline passed in between; A never returned", split, len(fr)-split), rep)
+		}
+		cancelB()
+		p.cli.Close()
+	}
+	return n
+}
+
+// hostileRversion (C12): whatever well-formed Rversion the peer sends - msize 0..6, huge, odd version strings -
+// setting up the client session returns (with a session or an error) and does not crash.
+func hostileRversion(res *hx.Result) int {
+	n := 0
+	bg := context.Background()
+	for _, ms := range []uint32{0, 1, 2, 3, 4, 5, 6, 7, 10, 11, 18, 19, 23, 24, 1 << 20, 1<<31 - 1, 1 << 31, 0xFFFFFFFF} {
+		for _, v := range []string{"9P2000", "unknown", "", "9P2000.L"} {
+			n++
+			p := newCliPeer(ms, v, 0)
+			ctx, cancel := context.WithTimeout(bg, 3*time.Second)
+			var sess p9p.Session
+			var err error
+			ok, dump := hx.RunTimed(5*time.Second, func() { sess, err = p9p.CSession(ctx, p.cli) })
+			rep := map[string]interface{}{"engine": "client", "rversion_msize": ms, "rversion_version": v}
+			if !ok {
+				res.Violate("C12", "rversion-crashes-client", fmt.Sprintf("the peer answers Tversion with Rversion(msize %d, %q): setting up the session %s", ms, v, hx.Trunc(dump, 1200)), rep)
+			} else if err == nil && sess != nil {
+				// a session was set up: a call on it returns (the peer answers nothing further)
+				c2, cancel2 := context.WithTimeout(bg, 200*time.Millisecond)
+				ok2, dump2 := hx.RunTimed(3*time.Second, func() { sess.Stat(c2, 1) })
+				cancel2()
+				if !ok2 {
+					res.Violate("C12", "rversion-crashes-client", fmt.Sprintf("after Rversion(msize %d, %q) a call on the session %s", ms, v, hx.Trunc(dump2, 1200)), rep)
+				}
+			}
+			cancel()
+			p.cli.Close()
+		}
+	}
+	return n
+}
+
+// stalledPeerThenFault (C12): the peer stops reading, so the first call blocks in its write and the later ones
+// queue behind it; then the connection closes / the session context is cancelled (and the peer reads on).
+// Every pending call returns an error in bounded time.
+func stalledPeerThenFault(res *hx.Result) int {
+	n := 0
+	bg := context.Background()
+	for _, fk := range []string{"close", "sessionctx", "close", "sessionctx"} {
+		n++
+		p := newCliPeer(p9p.DefaultMSize, "9P2000", 1)
+		sctx, scancel := context.WithCancel(bg)
+		sess, err := p9p.CSession(sctx, p.cli)
+		if err != nil {
+			res.Violate("harness", "harness:stalled-session", err.Error(), nil)
+			scancel()
+			continue
+		}
+		hold := make(chan struct{})
+		p.mu.Lock()
+		p.hold = hold
+		p.mu.Unlock()
+		// one request may still be taken by the read the peer is already in; everything after that stalls
+		const N = 30
+		var wg sync.WaitGroup
+		var mu sync.Mutex
+		returned := 0
+		for i := 0; i < N; i++ {
+			wg.Add(1)
+			go func(i int) {
+				defer wg.Done()
+				sess.Stat(bg, p9p.Fid(100+i)) // no deadline of its own
+				mu.Lock()
+				returned++
+				mu.Unlock()
+			}(i)
+		}
+		time.Sleep(30 * time.Millisecond)
+		if fk == "close" {
+			p.cli.Close()
+		} else {
+			scancel()
+		}
+		close(hold) // the peer reads on (it sees EOF or stray requests)
+		done := make(chan struct{})
+		go func() { wg.Wait(); close(done) }()
+		select {
+		case <-done:
+		case <-time.After(5 * time.Second):
+			mu.Lock()
+			k := returned
+			mu.Unlock()
+			gs := hx.GoroutinesWith(hx.Dump(), "p9p.(*transport).send")
+			d := fmt.Sprintf("%d calls were pending (the peer had stopped reading: one call blocked in its write, the others queued for dispatch) when the %s struck; after 5 s only %d have returned", N, map[string]string{"close": "connection was closed", "sessionctx": "session context was cancelled"}[fk], k)
+			if len(gs) > 0 {
+				d += "\n" + hx.Trunc(gs[0], 1200)
+			}
+			res.Violate("C12", "queued-calls-hang-after-fault:"+fk, d, map[string]interface{}{"engine": "client", "stalled_peer_fault": fk})
+		}
+		scancel()
+		p.cli.Close()
+		p.srv.Close()
+	}
+	return n
+}
+
 func Client(args []string) {
 	fl := flag.NewFlagSet("client", flag.ExitOnError)
 	scPath := fl.String("scenarios", "", "ndjson file of scenarios")
@@ -611,6 +830,10 @@ func Client(args []string) {
 	if *matrix {
 		res.Set("wrongtype_cases", wrongTypeMatrix(res))
 		res.Set("oversized_reply_cases", oversizedReplies(res))
+		res.Set("hostile_rversion_cases", hostileRversion(res))
+		res.Set("stalled_peer_cases", stalledPeerThenFault(res))
+	} else {
+		res.Set("split_reply_cases", splitReplyAcrossDeadline(res))
 	}
 	var scs []cliScenario
 	if err := hx.ReadNDJSON(*scPath, func(b []byte) error {
